@@ -92,6 +92,30 @@ func Run(sink ribdrv.Sink, c Cfg) (hangs int, err error) {
 		}
 	})
 	defer server.VerifSetTracer(nil)
+	// Announcements that arrive within a short window are released from the gate between "store" and
+	// "compare-and-set" together, so that the compare-and-set sections of different sessions contend.
+	var bmu sync.Mutex
+	var window chan struct{}
+	server.VerifSetGate(func(site, who string) {
+		if site != "elec.stored" {
+			return
+		}
+		bmu.Lock()
+		if window == nil {
+			w := make(chan struct{})
+			window = w
+			time.AfterFunc(300*time.Microsecond, func() {
+				bmu.Lock()
+				window = nil
+				bmu.Unlock()
+				close(w)
+			})
+		}
+		w := window
+		bmu.Unlock()
+		<-w
+	})
+	defer server.VerifSetGate(nil)
 
 	var wg sync.WaitGroup
 	var hmu sync.Mutex
